@@ -215,6 +215,92 @@ fn tadpole_anchor(tier: Tier, acc: &mut Acc) {
     }
 }
 
+/// ORACLE ANCHOR (supplementary, a different technique: deterministic quadrature; never the source of a VIOLATION line).
+/// For the massless bubble the mean of the jacobian over the hypercube is Σ_σ P(σ) ∫_0^1 jac(σ, ξ) dξ (the jacobian does
+/// not depend on the Gamma / Gaussian coordinates and on u only through the sector). The inner integral is evaluated by
+/// tanh-sinh quadrature of the IMPLEMENTATION's jacobian and compared with the textbook one-loop formula
+/// π^{D/2} Γ(ν1+ν2-D/2) Γ(D/2-ν1) Γ(D/2-ν2) / (Γ(ν1) Γ(ν2) Γ(D-ν1-ν2)) (p²)^{D/2-ν1-ν2}.
+/// Returns (number of anchors, failures as text).
+pub fn bubble_quadrature_anchor() -> (usize, Vec<String>) {
+    let mut n = 0;
+    let mut fails = vec![];
+    let cfgs: Vec<(usize, f64, f64)> = vec![
+        (2, 0.75, 0.75),
+        (2, 0.625, 0.875),
+        (3, 1.0, 1.0),
+        (3, 0.75, 1.0),
+        (3, 1.25, 0.5),
+        (4, 1.5, 1.5),
+        (4, 1.0, 1.5),
+        (5, 1.5, 1.5),
+        (5, 2.0, 1.0),
+    ];
+    for (d, n1, n2) in cfgs {
+        let g = mk(&banana(1), &[false, false], &[n1, n2], &[0, 1], d);
+        let case = match Case::new(&CaseSpec { g, mom_variant: 0, mass_variant: 0, label: "anchor".into() }) {
+            Some(c) => c,
+            None => {
+                fails.push(format!("bubble D={d} nu=({n1},{n2}) not admissible for the oracle"));
+                continue;
+            }
+        };
+        let p2: f64 = case.ext[0].1.iter().map(|c| q_to_f64(c) * q_to_f64(c)).sum();
+        let dh = d as f64 / 2.0;
+        let exact = libm::pow(std::f64::consts::PI, dh) * ogamma(n1 + n2 - dh) * ogamma(dh - n1) * ogamma(dh - n2)
+            / (ogamma(n1) * ogamma(n2) * ogamma(d as f64 - n1 - n2))
+            * libm::pow(p2, dh - n1 - n2);
+        let mut mean = 0.0;
+        for order in [vec![0usize, 1], vec![1usize, 0]] {
+            // the sector's tropical routing (external momentum through the smaller parameter): with the momentum on the
+            // large parameter the implementation's v = x p² - u²/L cancels catastrophically for ξ^(1/ω) < 1e-8, which is
+            // the regime the properties exclude (cancellation ratio of V) and which biases the quadrature at the 1e-4 level
+            let kin = case.tropical_kin(&order);
+            let r = match route(&case, &kin) {
+                Ok(r) => r,
+                Err(e) => {
+                    fails.push(format!("bubble D={d} nu=({n1},{n2}) does not build: {e}"));
+                    continue;
+                }
+            };
+            let (lo, hi) = refsampler::interval(&case.rt, case.g.full(), order[0]);
+            let prob = q_to_f64(&(hi - lo));
+            let base = sector_defaults(&case, &order);
+            // tanh-sinh on (0,1)
+            let h = 1.0 / 32.0;
+            let mut acc = 0.0f64;
+            let mut k = -220i32;
+            while k <= 220 {
+                let t = k as f64 * h;
+                let sh = (std::f64::consts::FRAC_PI_2) * t.sinh();
+                let ch = sh.cosh();
+                let w = std::f64::consts::FRAC_PI_2 * t.cosh() / (ch * ch) / 2.0;
+                // abscissa computed from the small side to keep relative accuracy near both ends
+                let e2 = (-2.0 * sh.abs()).exp();
+                let small = e2 / (1.0 + e2); // = (1 - tanh|sh|)/2
+                let xi = if sh < 0.0 { small } else { 1.0 - small };
+                k += 1;
+                if !(xi > 0.0 && xi < 1.0) || w == 0.0 {
+                    continue;
+                }
+                let mut x = base.clone();
+                x[1] = xi;
+                if let Outcome::Ok(s) = r.sampler.sample(&x, &r.ed, &Settings::DEFAULT) {
+                    if s.jacobian.is_finite() {
+                        acc += w * s.jacobian * h;
+                    }
+                }
+            }
+            mean += prob * acc;
+        }
+        n += 1;
+        let err = ((mean - exact) / exact).abs();
+        if !(err <= 1e-6) {
+            fails.push(format!("massless bubble D={d} nu=({n1},{n2}) p^2={p2}: quadrature mean of jacobian {mean:e}, textbook value {exact:e} (rel err {err:e})"));
+        }
+    }
+    (n, fails)
+}
+
 pub fn run(ctx: &Ctx) -> i32 {
     let tier = ctx.tier;
     let mut cases = fam_for(tier, "C01");
@@ -261,6 +347,8 @@ pub fn run(ctx: &Ctx) -> i32 {
     let mut anchors = Acc::new();
     tadpole_anchor(tier, &mut anchors);
     acc.merge(anchors);
+    let (n_anchor, anchor_fails) = bubble_quadrature_anchor();
+    acc.add("oracle_anchor_quadratures", n_anchor as u64);
     acc.violations.sort_by(|a, b| (a.key.as_str(), a.what.as_str()).cmp(&(b.key.as_str(), b.what.as_str())));
     if acc.samples.is_empty() {
         acc.sample(json!({"note": "no sample"}));
@@ -279,9 +367,23 @@ pub fn run(ctx: &Ctx) -> i32 {
             "CONTINUUM STEP (not decidable by bounded enumeration): the pointwise refinement of the tropical sampler (C04,C06,C07,C08-C13 and this check) implies equality of the hypercube mean with the Feynman integral by the Schwinger/Feynman-parameter representation (Borinsky 2020; momtrop paper)".into(),
             "the test function g enters only through loop_momenta".into(),
         ],
-        extra: Default::default(),
+        extra: {
+            let mut m = serde_json::Map::new();
+            m.insert("oracle_anchor".into(), json!({"technique": "tanh-sinh quadrature of the implementation's jacobian over xi, massless bubble, vs the textbook one-loop formula (supplementary, not the deciding step)", "anchors": n_anchor, "failures": anchor_fails}));
+            m
+        },
     };
-    finish(ctx, &acc, fin)
+    let code = finish(ctx, &acc, fin);
+    if !anchor_fails.is_empty() {
+        for f in &anchor_fails {
+            eprintln!("[C01] ORACLE-ANCHOR: {f}");
+        }
+        if code == 0 {
+            eprintln!("[C01] MACHINERY: the oracle anchor disagrees with the textbook value while no refinement clause fired: the reference model and the code may share an error (exit 2, no VIOLATION line)");
+            return 2;
+        }
+    }
+    code
 }
 
 pub fn replay(_ctx: &Ctx, v: &Value) -> i32 {
